@@ -6,14 +6,14 @@ use std::sync::atomic::Ordering;
 const SPEC: Spec = Spec {
     id: "C20",
     engine: "E-prod (exhaustive enumeration of the property's finite quantifier -- operand lengths -- with a deterministic work counter inside the real multiply-accumulate row routine; no timing)",
-    rule: "W(lx,ly) = increase of the MAC_WORK hook (sum of row lengths passed to the multiply-accumulate row routine = elementary digit multiplications) around one &a * &b of fixed dense operands; checked: W(2n,2n) <= 3.5*W(n,n) for every enumerated n >= 256, W(4096,4096) < 4096^2/4, W(lx,ly) <= lx*ly for every unbalanced shape, and the product itself against refint for operands up to 1024 digits; non-trivial = shorter operand > 32 digits (beyond the schoolbook regime)",
+    rule: "W(lx,ly) = increase of the MAC_WORK hook (sum of row lengths passed to the multiply-accumulate row routine = elementary digit multiplications) around one &a * &b of fixed dense operands; checked: W(2n,2n) <= 3.5*W(n,n) for every enumerated n >= 256, W(4096,4096) < 4096^2/4, W(lx,ly) <= lx*ly for every unbalanced shape, and the product itself against refint for operands up to 1024 digits; the same three bounds for each of 17 multiplication forms (value/reference operands, *=, checked_mul, BigInt sign pairs, squares, Product, and left/right operands whose buffer has spare capacity for the whole product) at n in {64,256,...,4096}; non-trivial = shorter operand > 32 digits (beyond the schoolbook regime)",
     assumptions: &[
         "cost = digit multiplications in the row routine (the property's definition); additions, subtractions and allocations of the sub-quadratic algorithms are not counted",
         "operands are fixed dense LCG digit strings without zero digits, so the count is deterministic",
         "thresholds carry margin over the measured values on the pinned tree (max doubling ratio 3.082, W(4096)/4096^2 = 0.074, unbalanced max ratio 1.0000)",
     ],
-    bounds_quick: "balanced n in {256,512,...,16384} and every n in 33..=4096 (doubling ratio W(2n)/W(n)); unbalanced bank n x {2n-1,2n,64n} for n in {33,40,100,256,300,1000} and every lx <= 300 x 7 length relations",
-    bounds_thorough: "balanced every n in 33..=8192 and 16384; unbalanced bank and every lx <= 700 x 7 length relations",
+    bounds_quick: "balanced n in {256,512,...,16384} and every n in 33..=4096 (doubling ratio W(2n)/W(n)); unbalanced bank n x {2n-1,2n,64n} for n in {33,40,100,256,300,1000} and every lx <= 300 x 7 length relations; 17 multiplication forms x n in {64,256,512,1024,2048,4096}",
+    bounds_thorough: "balanced every n in 33..=8192 and 16384; unbalanced bank and every lx <= 700 x 7 length relations; 17 forms x 6 sizes",
     hang_secs: 120,
     probes: Some(probes),
     max_workers: 16,
@@ -140,6 +140,111 @@ fn body(ctx: &mut Ctx) {
             if lx == 100 && ly == 6400 {
                 ctx.sample(|| format!("lx=100 ly=6400: W={} = {:.4} * lx*ly", w, w as f64 / 640000.0));
             }
+        }
+    }
+    // ---- every multiplication form, fresh operands and operands with spare buffer capacity
+    if ctx.space("FORMS") {
+        type F = (&'static str, fn(&BigUint, &BigUint) -> BigUint);
+        fn slack(a: &BigUint, b: &BigUint) -> BigUint {
+            // same value on a buffer with room for the whole product and more
+            let mut x = a.clone();
+            let k = 64 * (2 * a.bits().max(b.bits()) / 64 + 8);
+            x <<= k;
+            x >>= k;
+            x
+        }
+        let forms: Vec<F> = vec![
+            ("&a*&b", |a, b| a * b),
+            ("a*&b", |a, b| a.clone() * b),
+            ("&a*b", |a, b| a * b.clone()),
+            ("a*b", |a, b| a.clone() * b.clone()),
+            ("a*=&b", |a, b| {
+                let mut x = a.clone();
+                x *= b;
+                x
+            }),
+            ("a*=b", |a, b| {
+                let mut x = a.clone();
+                x *= b.clone();
+                x
+            }),
+            ("slack a*=&b", |a, b| {
+                let mut x = slack(a, b);
+                x *= b;
+                x
+            }),
+            ("slack a*=b", |a, b| {
+                let mut x = slack(a, b);
+                x *= b.clone();
+                x
+            }),
+            ("slack a*&b", |a, b| slack(a, b) * b),
+            ("&a*slack b", |a, b| a * slack(b, a)),
+            ("checked_mul", |a, b| num_traits::CheckedMul::checked_mul(a, b).unwrap()),
+            ("BigInt &-a*&b", |a, b| (&-BigInt::from(a.clone()) * &BigInt::from(b.clone())).magnitude().clone()),
+            ("BigInt -a*=&-b", |a, b| {
+                let mut x = -BigInt::from(a.clone());
+                x *= &-BigInt::from(b.clone());
+                x.magnitude().clone()
+            }),
+            ("BigInt slack a*=b", |a, b| {
+                let mut x = BigInt::from(slack(a, b));
+                x *= BigInt::from(b.clone());
+                x.magnitude().clone()
+            }),
+            ("square &a*&a", |a, _| a * a),
+            ("square a*=&a'", |a, _| {
+                let mut x = a.clone();
+                let y = a.clone();
+                x *= &y;
+                x
+            }),
+            ("Product [a,b]", |a, b| vec![a.clone(), b.clone()].into_iter().product()),
+        ];
+        let sizes: Vec<usize> = vec![64, 256, 512, 1024, 2048, 4096];
+        for (fi, (name, f)) in forms.iter().enumerate() {
+            if !ctx.mine(fi as u64) {
+                continue;
+            }
+            let mut prev: Option<(usize, u64)> = None;
+            for &n in &sizes {
+                ctx.case();
+                ctx.nontrivial(1);
+                ctx.inner(n as u64);
+                let (ad, bd) = (dense(n, 1), dense(n, 2));
+                let (a, b) = (bu(&ad), bu(&bd));
+                ctx.calls(1);
+                let before = MAC_WORK.load(Ordering::Relaxed);
+                let r = guard(|| f(&a, &b));
+                let w = MAC_WORK.load(Ordering::Relaxed) - before;
+                match r {
+                    Ok(p) => {
+                        if n <= 512 {
+                            let want = if name.starts_with("square") { Nat::from_digits(&ad).mul(&Nat::from_digits(&ad)) } else { Nat::from_digits(&ad).mul(&Nat::from_digits(&bd)) };
+                            ctx.compared(1);
+                            if nat_of(&p) != want {
+                                ctx.viol(format!("form-product {} n={}", name, n), "product differs from refint", vec![], "exact product".into(), "different".into());
+                            }
+                        }
+                    }
+                    Err(m) => ctx.viol(format!("form-panic {} n={}", name, n), "multiplication panicked", vec![], "product".into(), m),
+                }
+                ctx.outcome(w ^ ((fi as u64) << 48));
+                ctx.compared(2);
+                if w > (n * n) as u64 {
+                    ctx.viol(format!("form-schoolbook {} n={}", name, n), "more digit multiplications than the schoolbook method", vec![], format!("<= {}", n * n), format!("{}", w));
+                }
+                if let Some((pn, pw)) = prev {
+                    if pn >= 256 && n == 2 * pn && (w as f64) > 3.5 * (pw as f64) {
+                        ctx.viol(format!("form-doubling {} n={}", name, pn), "doubling the operand length multiplies the digit-multiplication count by more than 3.5 in this multiplication form", vec![format!("form={}", name)], format!("W(2n) <= 3.5*W(n) = {:.0}", 3.5 * pw as f64), format!("W({})={} W({})={} ratio={:.3}", pn, pw, n, w, w as f64 / pw as f64));
+                    }
+                }
+                if n == 4096 && w >= (4096u64 * 4096) / 4 {
+                    ctx.viol(format!("form-quarter {} n=4096", name), "the 4096 x 4096 product needs a quarter or more of the schoolbook digit multiplications in this multiplication form", vec![format!("form={}", name)], format!("< {}", 4096u64 * 4096 / 4), format!("{}", w));
+                }
+                prev = Some((n, w));
+            }
+            ctx.sample(|| format!("form {}: W(n) for n in {:?}; last W={}", name, sizes, prev.map_or(0, |p| p.1)));
         }
     }
     // ---- the property's own list: 8192 -> 16384
